@@ -1,14 +1,14 @@
 #!/bin/bash
-# seed_oldnew.sh <seed-worktree> <property>  — runs the COMMITTED (HEAD) harness and the WORKING-TREE harness
+# seed_oldnew.sh <seed-worktree> <property> [dev-harness-dir]  — runs the COMMITTED (HEAD) harness and the WORKING-TREE harness
 # of that property against a seed worktree, without touching /repo. Prints "old=<ok|FAIL> new=<ok|FAIL>".
 export GOFLAGS=-mod=mod GOPROXY=off GOSUMDB=off GOTOOLCHAIN=local
-WT=$1; P=$2
+WT=$1; P=$2; DEV=${3:-/verif/harness}
 run() { # dir
   (cd $1 && sed -i "s#=> /repo#=> $WT#" go.mod && VERIF_TIER=quick VERIF_SCALE=3 VERIF_REPLAY_DIR=$1/replays VERIF_KNOWN=/verif/known_findings.json go test -tags verif -count=1 -run "^Test$P\$" . 2>&1 | grep -E "^(ok|FAIL)" | head -1 | sed 's/.*build failed.*/BUILD-FAILED/' | cut -c1-12 | awk '{print $1}')
 }
 rm -rf /tmp/hs-old /tmp/hs-new; mkdir -p /tmp/hs-old
 git -C /verif archive HEAD harness | tar -x -C /tmp/hs-old
-cp -r /verif/harness /tmp/hs-new
+cp -r $DEV /tmp/hs-new
 O=$(run /tmp/hs-old/harness); N=$(run /tmp/hs-new)
 echo "$P old=$O new=$N"
 rm -rf /tmp/hs-old /tmp/hs-new
